@@ -349,12 +349,21 @@ func (r *recorder) Provides(b byte) bool {
 		return !r.b.Opts.NoACLHook
 	case mqtt.OnPublishDropped, mqtt.OnPacketSent, mqtt.OnQosPublish, mqtt.OnQosComplete, mqtt.OnQosDropped,
 		mqtt.OnPacketIDExhausted, mqtt.OnWillSent, mqtt.OnRetainMessage, mqtt.OnClientExpired, mqtt.OnRetainedExpired,
-		mqtt.OnDisconnect, mqtt.OnSessionEstablished, mqtt.OnSubscribed, mqtt.OnUnsubscribed, mqtt.OnPublished, mqtt.OnRetainPublished:
+		mqtt.OnDisconnect, mqtt.OnSessionEstablished, mqtt.OnSubscribed, mqtt.OnUnsubscribed, mqtt.OnPublished, mqtt.OnRetainPublished,
+		mqtt.OnConnect, mqtt.OnSessionEstablish:
 		return true
 	}
 	return false
 }
+func (r *recorder) OnConnect(cl *mqtt.Client, pk packets.Packet) error {
+	hookPoint("hook.OnConnect", cl.ID)
+	return nil
+}
+func (r *recorder) OnSessionEstablish(cl *mqtt.Client, pk packets.Packet) {
+	hookPoint("hook.OnSessionEstablish", cl.ID)
+}
 func (r *recorder) OnConnectAuthenticate(cl *mqtt.Client, pk packets.Packet) bool {
+	hookPoint("hook.OnConnectAuthenticate", cl.ID)
 	if r.b.Opts.AuthDeny != nil && r.b.Opts.AuthDeny(cl.ID) {
 		return false
 	}
